@@ -99,6 +99,24 @@ func init() {
 						}
 					}
 				}
+				// the plugin fails during the handshake: a rejected first line, further
+				// output behind it, then an exit / a kill / nothing
+				for li := range c03BadLines {
+					for _, more := range []string{"0", "1", "3"} {
+						for _, end := range []string{"exit:3", "exit:0", "stay", "closeout"} {
+							for _, gap := range []string{"0", "50ms"} {
+								if more == "0" && gap != "0" {
+									continue
+								}
+								if tier != "thorough" && (end == "exit:0" || (gap != "0" && li%2 == 1)) {
+									continue
+								}
+								out = append(out, sp("C03", fmt.Sprintf("hsfail/%s/more%s/%s/gap%s", c03BadLines[li].name, more, end, gap), seed,
+									P("proto", "grpc", "mux", "1", "hsfail", fmt.Sprint(li), "more", more, "end", end, "gap", gap)))
+							}
+						}
+					}
+				}
 				// seeded: crash at a drawn instant with schedule noise
 				n := 300
 				if tier == "thorough" {
@@ -140,7 +158,91 @@ func (s *syncBuf) Bytes() []byte {
 	return append([]byte(nil), s.b.Bytes()...)
 }
 
+// first lines Client.Start rejects
+var c03BadLines = []struct{ name, line string }{
+	{"garbage", "this is not a handshake\n"},
+	{"core-version", "9|1|unix|{ADDR}|grpc|\n"},
+	{"app-version", "1|77|unix|{ADDR}|grpc|\n"},
+	{"network", "1|1|carrier|{ADDR}|grpc|\n"},
+	{"protocol", "1|1|unix|{ADDR}|pigeon|\n"},
+	{"cert", "1|1|unix|{ADDR}|grpc|!!not-base64!!\n"},
+	{"no-mux", "1|1|unix|{ADDR}|grpc||false\n"},
+	{"few-fields", "1|1|unix\n"},
+}
+
+// runC03HS: the plugin fails during the handshake.
+func runC03HS(r *h.Run) {
+	w := r.W
+	c := r.ConfFromParams()
+	bl := c03BadLines[r.Spec.PI("hsfail", 0)]
+	more, end, gap := r.Spec.PI("more", 0), r.Spec.P("end", "stay"), parseDur(r.Spec.P("gap", "0"))
+	ctx := fmt.Sprintf("handshake=%s more-output=%d end=%s", bl.name, more, strings.SplitN(end, ":", 2)[0])
+	text := bl.line
+	var steps []h.ScriptStep
+	if gap == 0 {
+		for i := 0; i < more; i++ {
+			text += fmt.Sprintf("further output line %d\n", i)
+		}
+		steps = append(steps, h.Out(text))
+	} else {
+		steps = append(steps, h.Out(text))
+		for i := 0; i < more; i++ {
+			steps = append(steps, h.Out(fmt.Sprintf("further output line %d\n", i)).After(gap))
+		}
+	}
+	steps = append(steps, h.Err("tool: giving up\n"))
+	c.Path = "/bin/badhs"
+	r.InstallScript(c.Path, &h.Script{Listen: "unix", Steps: steps, End: end})
+	cl := r.NewClient(c)
+	o := r.Do("Start", 90*time.Second, func() (any, error) { return cl.Start() })
+	if o.Hung {
+		r.Violate("hang", "op=Start "+ctx, fmt.Sprintf("Start still outstanding after %v\n%s", o.Took, r.HostStacks("goplugin")))
+		return
+	}
+	if o.Err == nil {
+		r.Violate("setup", "bad handshake accepted "+ctx, "")
+	}
+	// the host keeps using the client as it would any other
+	for _, name := range []string{"Client", "Start2"} {
+		name := name
+		o := r.Do(name, 90*time.Second, func() (any, error) {
+			if name == "Client" {
+				return cl.Client()
+			}
+			return cl.Start()
+		})
+		if o.Hung {
+			r.Violate("hang", "op="+name+" "+ctx, fmt.Sprintf("%s still outstanding after %v\n%s", name, o.Took, r.HostStacks("goplugin")))
+			return
+		}
+		if o.Err == nil {
+			r.Violate("success-after-death", "op="+name+" "+ctx, name+" succeeded after the handshake had failed")
+		}
+	}
+	ko := r.Do("Kill", 150*time.Second, func() (any, error) { cl.Kill(); return nil, nil })
+	if ko.Hung {
+		r.Violate("hang", "op=Kill "+ctx, fmt.Sprintf("Kill still outstanding after %v\n%s", ko.Took, r.HostStacks("goplugin")))
+		return
+	}
+	time.Sleep(5 * time.Second)
+	if p := w.ProcByName("plugin"); p != nil {
+		if p.Alive() {
+			r.Violate("process-left-behind", ctx, "plugin alive after a failed Start and Kill")
+		} else if p.State() == k.Zombie {
+			r.Violate("not-reaped", ctx, "plugin process exited but was never waited for (zombie) after a failed Start and Kill")
+		}
+		if !cl.Exited() {
+			r.Violate("not-exited", ctx, "plugin process is dead and Kill returned, but Client.Exited() is false")
+		}
+	}
+	w.Probe("hsfail.checked")
+}
+
 func runC03(r *h.Run) {
+	if r.Spec.P("hsfail", "") != "" {
+		runC03HS(r)
+		return
+	}
 	w := r.W
 	c := r.ConfFromParams()
 	r.Info["conf"] = c.String()
